@@ -100,6 +100,25 @@ func c13Pair(r *mon.Run, a, b string, na, nb *ljson.Number) {
 	cs := map[string]any{"kind": "pair", "a": a, "b": b}
 	var got int
 	var eq, gt, gte, lt, lte bool
+	// comparing is read-only: both operands print and measure the same afterwards (skipped for huge exponents,
+	// whose plain numerals are megabytes long)
+	small := abs(da.Exp) < 4000 && abs(db.Exp) < 4000
+	var sa0, sb0 string
+	var fa0, fb0 uint
+	if small {
+		mon.Guard(func() { sa0, sb0, fa0, fb0 = na.String(), nb.String(), na.LengthOfFractionalPart(), nb.LengthOfFractionalPart() })
+	}
+	defer func() {
+		if !small {
+			return
+		}
+		var sa1, sb1 string
+		var fa1, fb1 uint
+		mon.Guard(func() { sa1, sb1, fa1, fb1 = na.String(), nb.String(), na.LengthOfFractionalPart(), nb.LengthOfFractionalPart() })
+		if sa0 != sa1 || sb0 != sb1 || fa0 != fa1 || fb0 != fb1 {
+			r.Violate("operand-changed", a+" ? "+b, fmt.Sprintf("after comparing %s with %s the operands read %q (fraction length %d) and %q (%d); before: %q (%d) and %q (%d)", a, b, mon.Trunc(sa1, 60), fa1, mon.Trunc(sb1, 60), fb1, mon.Trunc(sa0, 60), fa0, mon.Trunc(sb0, 60), fb0), cs)
+		}
+	}()
 	if p := mon.Guard(func() {
 		got = na.Cmp(nb)
 		eq, gt, gte, lt, lte = na.Equal(nb), na.GreaterThan(nb), na.GreaterThanOrEqual(nb), na.LessThan(nb), na.LessThanOrEqual(nb)
@@ -389,7 +408,7 @@ func init() {
 				c13Pair(r, c.A, c.B, na, nb)
 			}
 		},
-		Rule:               "grammar: every string over {0 1 9 - + . e E x} up to length 7 (quick) / 9 (thorough) is given to NewNumber and compared with the RFC 8259 number regex; for accepted strings String() must be a plain numeral denoting the same exact decimal and LengthOfFractionalPart() the number of significant fraction digits. exponents spelled with up to 40 leading zeros; 13 mantissa shapes x 8 exponents around the resource bound (a text that is accepted there must compare with its own mantissa as exact arithmetic says). order of calls: each of 20 refused texts (grammar, exponent beyond the resource bound, empty, foreign bytes) is followed by fully judged parses of 15 plain numbers, and one random pair in 50 is preceded by a refused huge-exponent text. comparison: all ordered pairs of the grammatical strings of length <= 5 over {0 1 9 - . e E +}, plus random pairs with up to 46 mantissa digits and exponents up to 3000 (equal-by-shift, last-digit neighbours, unrelated), each compared both ways: Cmp/Equal/GT/GTE/LT/LTE vs exact decimal comparison (cross-checked with math/big.Rat for small exponents). distinct_nontrivial = distinct strings and pairs (hashed).",
+		Rule:               "grammar: every string over {0 1 9 - + . e E x} up to length 7 (quick) / 9 (thorough) is given to NewNumber and compared with the RFC 8259 number regex; for accepted strings String() must be a plain numeral denoting the same exact decimal and LengthOfFractionalPart() the number of significant fraction digits. exponents spelled with up to 40 leading zeros; 13 mantissa shapes x 8 exponents around the resource bound (a text that is accepted there must compare with its own mantissa as exact arithmetic says). order of calls: each of 20 refused texts (grammar, exponent beyond the resource bound, empty, foreign bytes) is followed by fully judged parses of 15 plain numbers, and one random pair in 50 is preceded by a refused huge-exponent text. comparison: all ordered pairs of the grammatical strings of length <= 5 over {0 1 9 - . e E +}, plus random pairs with up to 46 mantissa digits and exponents up to 3000 (equal-by-shift, last-digit neighbours, unrelated), each compared both ways: Cmp/Equal/GT/GTE/LT/LTE vs exact decimal comparison, and String() / LengthOfFractionalPart() of both operands unchanged by the comparison (cross-checked with math/big.Rat for small exponents). distinct_nontrivial = distinct strings and pairs (hashed).",
 		MinNontrivialQuick: 200000, MinNontrivialThorough: 2000000,
 		Assumptions: []string{"reference: harness/internal/ref/decimal.go (exact normalised decimals) cross-checked against math/big.Rat", "exponents with more than 3000 in magnitude are only probed at a few fixed points (memory)"},
 		Exhaustive:  "all strings up to the stated length over the 9-byte alphabet; all ordered pairs of grammatical strings up to the stated length",
